@@ -1743,9 +1743,13 @@ func (x *FnExec) havocLoop(h *ssa.BasicBlock, st *State, ls *LoopSpec, pre *Stat
 			keys[k] = true
 		}
 	}
+	allGhost, ghostKeys := x.loopGhostKeys(body)
+	for k := range ghostKeys {
+		keys[k] = true
+	}
 	old := map[string]Term{}
 	for _, k := range sortedKeys(keys) {
-		if strings.HasPrefix(k, "ghost:") && !x.loopTouchesGhost(body) {
+		if strings.HasPrefix(k, "ghost:") && !allGhost && !ghostKeys[k] {
 			continue
 		}
 		old[k] = x.getHeap(st, k, x.heapBool[k])
@@ -2057,6 +2061,70 @@ func (x *FnExec) loopTouchesGhost(body map[*ssa.BasicBlock]bool) bool {
 		}
 	}
 	return false
+}
+
+// loopGhostKeys: the abstract (ghost) cells the calls of a loop body can change. A callee
+// without a contract is assumed to leave the abstract state unchanged (the same assumption as
+// at the call itself, printed there); a contract with 'modifies *' and no ghost list changes all
+// of it; otherwise exactly the ghost cells its modifies clause lists.
+func (x *FnExec) loopGhostKeys(body map[*ssa.BasicBlock]bool) (bool, map[string]bool) {
+	keys := map[string]bool{}
+	for blk := range body {
+		for _, in := range blk.Instrs {
+			ci, ok := in.(ssa.CallInstruction)
+			if !ok {
+				continue
+			}
+			con := x.contractOfCall(ci.Common())
+			if con == nil {
+				continue
+			}
+			listed := false
+			for _, m := range con.Modifies {
+				if c, ok := m.(*CCall); ok && c.Fn == "ghost" {
+					if id, ok := c.Args[0].(*CIdent); ok {
+						keys["ghost:"+id.Name] = true
+						listed = true
+					}
+				}
+			}
+			if con.ModAll && !listed {
+				return true, keys
+			}
+		}
+	}
+	return false, keys
+}
+
+// contractOfCall: the contract a call site is checked against, nil if there is none.
+func (x *FnExec) contractOfCall(c *ssa.CallCommon) *Contract {
+	name := ""
+	if c.IsInvoke() {
+		name = "(" + typeKey(c.Value.Type()) + ")." + c.Method.Name()
+	} else if f := c.StaticCallee(); f != nil {
+		if f.Origin() != nil {
+			f = f.Origin()
+		}
+		name = f.String()
+		if x.eng.cs.Funcs[name] == nil && f.Synthetic != "" && strings.HasPrefix(f.Synthetic, "wrapper") {
+			if sigR := f.Signature.Recv(); sigR != nil {
+				if p, ok := sigR.Type().(*types.Pointer); ok {
+					name = "(" + typeKey(p.Elem()) + ")." + f.Name()
+				}
+			}
+		}
+	} else if u, ok := c.Value.(*ssa.UnOp); ok {
+		if g, ok := u.X.(*ssa.Global); ok {
+			if f := x.eng.globalFuncInit(g); f != nil {
+				name = f.String()
+			}
+		}
+	} else if p, ok := c.Value.(*ssa.Parameter); ok {
+		name = x.fn.String() + "." + p.Name()
+	} else if mc, ok := c.Value.(*ssa.MakeClosure); ok {
+		name = mc.Fn.(*ssa.Function).String()
+	}
+	return x.eng.cs.Funcs[name]
 }
 
 func (x *FnExec) usesRecoverOrDefer() bool {
